@@ -503,3 +503,57 @@ def run_driver_checked(ctx, exe, args, timeout=600, what="driver", replay_src=No
         ctx.violation("crash/" + what, "%s exited with status %d: %s" % (what, rc, err.strip()[-400:].replace("\n", " | ")),
                       replay_src=replay_src)
     return False, out, err
+
+
+# --------------------------------------------------------------------------
+# transition covers of a TLC state graph
+#
+# A generator spec prints one line per *generated transition* (ACTION_CONSTRAINT with PrintT):
+#     <<"@@GEN@@", ToJson([f |-> ToString(vars), o |-> op', t |-> ToString(vars')])>>
+# edge_tours() turns the edge list into operation sequences that start in the initial state and
+# together take every transition at least once (model-based test generation: one test obligation
+# per transition of the implementation-shaped spec).
+
+def edge_tours(edges, maxlen=80, init=None):
+    from collections import defaultdict, deque
+    out = defaultdict(list)
+    seen_e = set()
+    for e in edges:
+        k = (e["f"], json.dumps(e["o"], sort_keys=True), e["t"])
+        if k in seen_e:
+            continue
+        seen_e.add(k)
+        out[e["f"]].append((e["o"], e["t"]))
+    if init is None:
+        init = edges[0]["f"]
+    # BFS tree from init
+    parent = {init: None}
+    dq = deque([init])
+    while dq:
+        n = dq.popleft()
+        for o, t in out.get(n, ()):
+            if t not in parent:
+                parent[t] = (n, o)
+                dq.append(t)
+
+    def path_to(n):
+        ops = []
+        while parent[n] is not None:
+            p, o = parent[n]
+            ops.append(o)
+            n = p
+        ops.reverse()
+        return ops
+    uncovered = {n: list(reversed(v)) for n, v in out.items() if n in parent}
+    tours = []
+    order = sorted(uncovered, key=lambda n: len(path_to(n)))
+    for start in order:
+        while uncovered[start]:
+            ops = path_to(start)
+            n = start
+            while len(ops) < maxlen and uncovered.get(n):
+                o, t = uncovered[n].pop()
+                ops.append(o)
+                n = t
+            tours.append(ops)
+    return tours, len(seen_e), len(parent)
